@@ -13,8 +13,10 @@
     length of what follows, and the same data, the names inside NS / CNAME / PTR / MX / SOA data renamed by the same rule and
     every other byte of data (OPT included) copied.  Names of the output are read by the reference decoder of C06 and
     compared up to ASCII case, since the output is compressed again.  No Panic outcome.
-    PARTIAL: when exactly the error is reported (some renamed name exceeds 255 bytes) is stated per name, not collected at
-    packet level; acceptance of the output by the parser has the known finding chain-depth of C06; the wrapper on the packet
+    The error is reported exactly when the question name or some owner name or name inside data would exceed 255 bytes
+    once its matching suffix is replaced (same theorem: the two outcomes exclude each other).  Whenever the parser accepts the output, it reads as the renamed message up to
+    case, section by section (C07_same_message).  PARTIAL: acceptance of the output by the parser has the known finding
+    chain-depth of C06; the wrapper on the packet
     object (re-parse, offsets) is C08_rename_view.  The correspondence and the abstract rename applied to the independently
     decoded message decide these on every run. *)
 From DV Require Import Model.Base Model.Parser Model.Header Model.Readers Model.Uncompress Model.Compress
@@ -87,15 +89,25 @@ Example C07_ren_rec_means : forall sl tl sfx r x r' x', ren_rec sl tl sfx (r, x)
   end.
 Proof. intros. split; intros HH; exact HH. Qed.
 
+Example C07_overflows_means : forall sl tl sfx nl r x,
+  (overflows sl tl sfx nl <-> exists pre rest, nl = pre ++ rest /\ ci_labels rest sl /\ (sfx = true \/ pre = []) /\
+                                 255 < length (labels_flat pre) + length (wire_of_labels tl)) /\
+  (rec_overflows sl tl sfx (r, x) <-> overflows sl tl sfx (rv_labels r) \/
+     match x with RdName a => overflows sl tl sfx a | RdMx _ a => overflows sl tl sfx a
+                | RdSoa a b _ => overflows sl tl sfx a \/ overflows sl tl sfx b | RdRaw _ => False end).
+Proof. intros. split; split; intros HH; exact HH. Qed.
+
 (** [recs_enc], [rec_enc], [rdata_enc], [name_enc] and the reference decoder are spelled out in props/C06.v
     (C06_encoding_means, C06_reference_decoder_means); [rv_with_labels r ls] is [r] with its labels replaced. *)
 Theorem C07_packet : forall p v sl tl sfx, bytes_ok p -> parse p = Ok v ->
   Forall lab sl -> Forall lab tl -> sl <> [] -> tl <> [] -> bytes_ok (wire_of_labels tl) ->
   length (wire_of_labels sl) <= 255 -> length (wire_of_labels tl) <= 255 ->
   exists qls qt lxa lxn lxr qe, reading p qls qt lxa lxn lxr /\ cname_l p 12 qls qe /\
-    (renamer_rename v (wire_of_labels tl) (wire_of_labels sl) sfx = Err InvalidName \/
+    ((renamer_rename v (wire_of_labels tl) (wire_of_labels sl) sfx = Err InvalidName /\
+      (overflows sl tl sfx qls \/ Exists (rec_overflows sl tl sfx) (lxa ++ lxn ++ lxr))) \/
      exists out qls' L' X, renamer_rename v (wire_of_labels tl) (wire_of_labels sl) sfx = Ok out /\ bytes_ok out /\
        renamed sl tl sfx qls qls' /\ Forall2 (ren_rec sl tl sfx) (lxa ++ lxn ++ lxr) L' /\
+       ~ overflows sl tl sfx qls /\ Forall (fun rx => ~ rec_overflows sl tl sfx rx) (lxa ++ lxn ++ lxr) /\
        out = (firstn 12 p ++ wire_of_labels qls' ++ firstn 4 (skipn qe p)) ++ X /\
        recs_enc p out (12 + length (wire_of_labels qls') + 4) L' (length out)).
 Proof. exact rename_content. Qed.
@@ -111,3 +123,17 @@ Example C07_packet_hypotheses_met :
   | _ => False
   end.
 Proof. vm_compute. exact I. Qed.
+
+(** Whenever the parser accepts the renamed packet (always, unless more than 16 nested suffixes were re-compressed into one chain -
+    known finding chain-depth), it reads as the renamed message: the question name renamed, the same type, and section by section,
+    record by record, the records of the input with their names renamed, compared up to ASCII case, the same counts. *)
+Theorem C07_same_message : forall p v sl tl sfx out v', bytes_ok p -> parse p = Ok v ->
+  Forall lab sl -> Forall lab tl -> sl <> [] -> tl <> [] -> bytes_ok (wire_of_labels tl) ->
+  length (wire_of_labels sl) <= 255 -> length (wire_of_labels tl) <= 255 ->
+  renamer_rename v (wire_of_labels tl) (wire_of_labels sl) sfx = Ok out -> parse out = Ok v' ->
+  exists qls qt lxa lxn lxr qls' L' lxa' lxn' lxr',
+    reading p qls qt lxa lxn lxr /\ renamed sl tl sfx qls qls' /\ Forall2 (ren_rec sl tl sfx) (lxa ++ lxn ++ lxr) L' /\
+    reading out qls' qt lxa' lxn' lxr' /\ Forall2 ci_rec L' (lxa' ++ lxn' ++ lxr') /\
+    length lxa' = length lxa /\ length lxn' = length lxn /\ length lxr' = length lxr.
+Proof. exact rename_same_message. Qed.
+Print Assumptions C07_same_message.
